@@ -145,11 +145,19 @@ def mutants_of_line(l):
 
 
 def sh(cmd, cwd, env, timeout):
+    # own process group, so that a mutant that makes a test binary spin is killed with its cargo parent
+    import signal
+    p = subprocess.Popen(cmd, cwd=cwd, env=env, stdout=subprocess.PIPE, stderr=subprocess.STDOUT, text=True, errors="replace", start_new_session=True)
     try:
-        p = subprocess.run(cmd, cwd=cwd, env=env, timeout=timeout, stdout=subprocess.PIPE, stderr=subprocess.STDOUT, text=True, errors="replace")
-        return p.returncode, p.stdout
-    except subprocess.TimeoutExpired as e:
-        return None, (e.stdout or b"").decode(errors="replace") if isinstance(e.stdout, bytes) else (e.stdout or "")
+        out, _ = p.communicate(timeout=timeout)
+        return p.returncode, out
+    except subprocess.TimeoutExpired:
+        try:
+            os.killpg(p.pid, signal.SIGKILL)
+        except ProcessLookupError:
+            pass
+        out, _ = p.communicate()
+        return None, out or ""
 
 
 KNOWN = None
